@@ -6,6 +6,7 @@ import WindVerif.Drv.SpanSet
 import WindVerif.Drv.Buffers
 import WindVerif.Drv.Generic
 import WindVerif.Drv.LineFile
+import WindVerif.Drv.Records
 open WindVerif.Drv
 
 def machines : List (String × Machine) := [
@@ -20,7 +21,8 @@ def machines : List (String × Machine) := [
   ("pbuf", pbufMachine),
   ("ring", ringMachine),
   ("generic", genericMachine),
-  ("linefile", linefileMachine)
+  ("linefile", linefileMachine),
+  ("records", recordsMachine)
 ]
 
 def main (args : List String) : IO UInt32 := do
